@@ -53,7 +53,7 @@ def with_defs(rng, src: str) -> str:
 TBL_CELLS = ["a", "b c", "*e*", "`c|d`", "x\\|y", "\\", "a\\\\", "", " ", "[l](u)", "![i](s)", "&amp;", "<b>", "\\|", "é", "a\tb", "\u00a0", "-", ":-:", "> q", "- i", "# h",
              "1. o", "```", "    ", "\\\\|", "~~s~~", "<http://x.y>", "[r]", "a\\"]
 TBL_DELIMS = ["---", ":--", "--:", ":-:", "-", ":-", "-:", " --- ", "\t--\t", "", " ", "::", "-:-", ":--:", "--", "- -", "---x"]
-FIXED_T = ["a|b\n-|-\nc|d\n", "|a|b|\n|--|:-:|\n|c|\n|d|e|f|\n\npara\n", "a|b\n-|-\n", "a|b\n-|-", "a|b\n- |-\n", "a\n-|-\n", "|a|\n|-|\n> q\n", "|a|\n|-|\n- l\n", "|a|\n|-|\n# h\n",
+FIXED_T = ["abc\ndef\n:-:\n2. item\n", "abc\n2. def\n---\n", "abc\n---\n-\nx\n", "> abc\n> --:\n> 7) x\n", "a|b\n-|-\nc|d\n", "|a|b|\n|--|:-:|\n|c|\n|d|e|f|\n\npara\n", "a|b\n-|-\n", "a|b\n-|-", "a|b\n- |-\n", "a\n-|-\n", "|a|\n|-|\n> q\n", "|a|\n|-|\n- l\n", "|a|\n|-|\n# h\n",
            "|a|\n|-|\n    code\n", "para\n|a|\n|-|\n", "para\na|b\n-|-\nc\n", "> a|b\n> -|-\n> c|d\ne|f\n", "- a|b\n  -|-\n  c|d\n e|f\n", "a\\|b|c\n-|-\n", "|a\\\\|b|\n|-|-|\n", "| |\n|-|\n", "||\n|-|\n",
            "a|b\n-||-\n", "a|b\n-|-|\n", "a|b\n|-|-\nx\n\ny\n", "[r]: /u\na|b\n-|-\n", "a|b\n:-|-:\n```\nf\n```\n", "a|b\n-|-\n<div>\n", "a|b\n-|-\n***\n", "    a|b\n-|-\n", "a|b\n    -|-\n", "a|b\n-|-\n \nz\n",
            "t\n===\na|b\n-|-\n", "a|b\n-|-\nc|d\n===\n", "|\n-|\n", "a|\n-|\n", "|a\n|-\n", "a|b\n--\n", "-|-\n-|-\n-|-\n", "a|b\n\t-|-\n", "\u00a0|a|\u00a0\n|-|\n\u00a0|b\u00a0\n"]
